@@ -115,6 +115,20 @@ class Impl:
         self.k = argument(Tensor(np.int64, (None,)))
         self.j = argument(Tensor(np.int64, None))
         self.default_disp = Var._operator_dispatcher
+        # what each evaluator computes for Exp on a fixed vector, obtained WITHOUT spox (a hand-made model run by onnx.reference and by
+        # onnxruntime): the two round differently in the last bit, so a propagated value tells which backend produced it
+        import onnx
+        import onnx.reference
+        import onnxruntime
+        from onnx import TensorProto as TP, helper as oh
+        self.xs = np.linspace(-3, 3, 41).astype(np.float32)
+        m = oh.make_model(oh.make_graph([oh.make_node("Exp", ["x"], ["y"])], "g", [oh.make_tensor_value_info("x", TP.FLOAT, [41])],
+                                        [oh.make_tensor_value_info("y", TP.FLOAT, [41])]), opset_imports=[oh.make_operatorsetid("", 17)], ir_version=8)
+        so = onnxruntime.SessionOptions()
+        so.log_severity_level = 3
+        self.finger = {1: np.asarray(onnx.reference.ReferenceEvaluator(m).run(None, {"x": self.xs})[0]),
+                       2: np.asarray(onnxruntime.InferenceSession(m.SerializeToString(), so).run(None, {"x": self.xs})[0])}
+        self.finger_distinct = not np.array_equal(self.finger[1], self.finger[2])
 
     def reset(self):
         self.Var._operator_dispatcher = self.default_disp
@@ -191,6 +205,13 @@ class Impl:
         c = self.op.add(self.op.const(1.0), self.op.const(2.0))
         if (c._value is not None) != (st[1] != 0):
             bad.append(f"value propagation {'on' if c._value is not None else 'off'} but backend state is {st[1]}")
+        if st[1] in (1, 2) and self.finger_distinct:
+            e = self.op.exp(self.op.const(self.xs))._value
+            got = None if e is None else self.np.asarray(e.value)
+            if got is None or not self.np.array_equal(got, self.finger[st[1]]):
+                other = 3 - st[1]
+                who = "the OTHER backend's result" if got is not None and self.np.array_equal(got, self.finger[other]) else "neither evaluator's result"
+                bad.append(f"backend state is {st[1]} but the value propagated for Exp is {who}")
         for probe, shape, need in (("reshape to int64[?]", self.k, 2), ("reshape to rank-unknown int64", self.j, 3)):
             with warnings.catch_warnings(record=True) as w:
                 warnings.simplefilter("always")
@@ -394,6 +415,7 @@ def run(run: Run) -> int:
                  {"history": small, "impl": render(*impl.run(small)[:3]), "model": model_eval(run, [small], "shrink")[0]})
     cov = {
         "evaluations": len(progs),
+        "backend_probe_distinguishes_evaluators": bool(impl.finger_distinct),
         "distinct_nontrivial": len(distinct),
         "rule": "random trees of with-blocks/decorated calls over the three settings (depth<=5), bodies raising 7 exception "
                 "classes incl. spox's own eager InferenceError/TypeError, try/except, global setters, observation points; "
